@@ -228,6 +228,13 @@ func (w *Writer) Delete(bs []byte) (success bool) {
 
 // Delete2 is same as Delete(). Additionally returns the deleted item's node
 func (w *Writer) Delete2(bs []byte) (n *skiplist.Node, success bool) {
+	// Stay inside one barrier session from the lookup to the delete: another
+	// writer deleting the same item concurrently must not get its node
+	// reclaimed while it is still being examined here.
+	barrier := w.store.GetAccesBarrier()
+	token := barrier.Acquire()
+	defer barrier.Release(token)
+
 	if n := w.GetNode(bs); n != nil {
 		return n, w.DeleteNode(n)
 	}
@@ -245,21 +252,27 @@ func (w *Writer) DeleteNode(x *skiplist.Node) (success bool) {
 	}()
 
 	verifYield(104, 0) // verif: DeleteNode entry
-	x.SetLink(nil)
 	sn := w.GetCurrSn()
 	gotItem := (*Item)(x.Item())
 	if gotItem.bornSn == sn {
 		success = w.store.DeleteNode(x, w.insCmp, w.buf, &w.slSts1)
 
-		barrier := w.store.GetAccesBarrier()
-		verifYield(106, 0) // verif: DeleteNode before FlushSession
-		barrier.FlushSession(unsafe.Pointer(x))
+		// Only the writer that removed the node owns it: a writer that lost
+		// the race must neither touch its link nor hand it to the reclaimer
+		// a second time.
+		if success {
+			x.SetLink(nil)
+			barrier := w.store.GetAccesBarrier()
+			verifYield(106, 0) // verif: DeleteNode before FlushSession
+			barrier.FlushSession(unsafe.Pointer(x))
+		}
 		return
 	}
 
 	verifYield(105, 0) // verif: DeleteNode before deadSn CAS
 	success = atomic.CompareAndSwapUint32(&gotItem.deadSn, 0, sn)
 	if success {
+		x.SetLink(nil)
 		if w.gctail == nil {
 			w.gctail = x
 			w.gchead = w.gctail
